@@ -105,22 +105,34 @@ def usedName (t : Target) : String :=
   | some _ => "route"
   | none => if t.opts.tlsSkipVerify then "insecure" else "default"
 
-/-- c19.timing: spec = slow upstream ⇒ 504 no later than T (+ slack), fast upstream ⇒ its own status at its
-own time; the expected values are written out here independently of `serve`. -/
+def optI (j : Json) (k : String) (d : Int) : Int := (j.getObjValAs? Int k).toOption.getD d
+def optS (j : Json) (k : String) : String := (j.getObjValAs? String k).toOption.getD ""
+
+/-- c19.timing / c19.binary: spec = headers later than T ⇒ 504 no later than T (+ slack) on every handler path;
+headers in time ⇒ the upstream's status and its complete body at d + body, however long the body streams. The
+expected values are written out here independently of `serveFull`. -/
 def timingH : Handler := fun inp impl => do
   let tms ← getI inp "t_ms"
   let dms ← getI inp "d_ms"
   let st ← inp.getObjValAs? Nat "status"
   let o ← kindOpts (← getS inp "kind")
-  let T := tms * 1000000
-  let d := dms * 1000000
-  let cell := setConfig Cell.init { dialTimeout := 2000000000, responseHeaderTimeout := T, keepAliveTimeout := 1000000000,
-                                    idleConnTimeout := 1000000000, maxConn := 4 }
+  let accept := optS inp "accept"
+  let bodyMs := optI inp "body_ms" 0
+  let ms2ns (x : Int) : Int := x * 1000000
+  let T := ms2ns tms
+  let d := ms2ns dms
+  let cell := setConfig Cell.init { dialTimeout := ms2ns (optI inp "dial_ms" 2000), responseHeaderTimeout := T,
+                                    keepAliveTimeout := ms2ns (optI inp "keepalive_ms" 1000),
+                                    idleConnTimeout := ms2ns (optI inp "idle_ms" 1000), maxConn := 4 }
   let tg := addTarget cell o
-  let tr := selectTransport (newHTTPProxy cell) tg
-  let (ms, mt) := serve roundTrip tr st d
-  let m := Json.mkObj [("status", ms), ("used", usedName tg), ("used_rht", Json.num (JsonNumber.fromInt tr.responseHeaderTimeout)),
-                       ("at_us", Json.num (JsonNumber.fromInt (mt / 1000)))]
+  let path := handlerPath "" accept
+  let pathName := match path with | .sse => "sse" | .default => "plain" | .websocket => "ws"
+  let some h := handlerFor (newHTTPProxy cell) (ms2ns (optI inp "flush_ms" 1000)) 0 tg path
+    | throw "websocket requests are not part of the stream"
+  let r := serveFull roundTrip h.transport requestDeadline st d (ms2ns bodyMs)
+  let m := Json.mkObj [("status", r.status), ("used", usedName tg),
+                       ("used_rht", Json.num (JsonNumber.fromInt h.transport.responseHeaderTimeout)),
+                       ("complete", r.complete), ("done_us", Json.num (JsonNumber.fromInt (r.doneAt / 1000)))]
   match impl.getObjValAs? Nat "status" with
   | .error _ =>
     return ({ model := m, agree := false, spec := true, nontrivial := false, tag := "harness-error" } : Verdict).toJson
@@ -130,25 +142,32 @@ def timingH : Handler := fun inp impl => do
     let attempts ← getI impl "attempts"
     let used ← getS impl "used"
     let urht ← getI impl "used_rht"
+    let bodyOk := (impl.getObjValAs? Bool "body_ok").toOption.getD (bodyMs == 0)
     let err := (impl.getObjValAs? String "err").toOption.getD ""
+    -- the executable could not be started or reached (ports, machine load): not a case, and not counted
+    if err.startsWith "env:" then
+      return ({ model := m, agree := true, spec := true, nontrivial := false, tag := "inconclusive-environment" } : Verdict).toJson
     let slow := decide (0 < tms) && decide (tms < dms)
     let expStatus : Nat := if slow then 504 else st
-    let boundUs : Int := (if slow then tms else dms) * 1000
-    -- lower bound: nothing can come back before min(d, T) (2 ms of timer granularity allowed)
+    let boundUs : Int := (if slow then tms else dms + bodyMs) * 1000
+    -- lower bound: nothing can be complete before min(d + body, T) (2 ms of timer granularity allowed)
     let inWindow := decide (boundUs - 2000 ≤ el) && decide (el ≤ boundUs + slack)
-    let spec := err.isEmpty && ist == expStatus && inWindow
-    let agree := ist == ms && used == usedName tg && urht == tr.responseHeaderTimeout
-    let cls := if tms ≤ 0 then "no-limit" else if slow then "slow-504" else "fast-served"
+    let spec := err.isEmpty && ist == expStatus && inWindow && (slow || bodyOk)
+    let agree := ist == r.status && used == usedName tg && urht == h.transport.responseHeaderTimeout
+                  && (slow || bodyOk == r.complete)
+    let cls := if tms ≤ 0 then "no-limit" else if slow then "slow-504"
+               else if bodyMs > 0 then "in-time-long-body" else "fast-served"
     let tag :=
       if spec then (if attempts > 1 then cls ++ "+remeasured" else cls)
-      else if !err.isEmpty then "client-error"
       else if slow && ist == st && decide (d / 1000 - 2000 ≤ el) then "no-timeout-enforced"
-      else if slow && ist != 504 && decide (el ≤ boundUs + slack) then "timeout-not-504"
+      else if slow && ist != 504 && err.isEmpty && decide (el ≤ boundUs + slack) then "timeout-not-504"
+      else if !slow && ist == expStatus && !bodyOk then "body-cut-off"
+      else if !err.isEmpty then "client-error"
       else if ist == expStatus && decide (el > boundUs + slack) then "late"
       else if !slow && ist == 504 then "timeout-too-early"
       else "other"
     return ({ model := m, agree := agree, spec := spec, nontrivial := decide (0 < tms),
-              tag := tag ++ "/" ++ usedName tg } : Verdict).toJson
+              tag := tag ++ "/" ++ usedName tg ++ "/" ++ pathName } : Verdict).toJson
 
 def streams : List (String × Handler) := [("c19.fields", fieldsH), ("c19.timing", timingH), ("c19.binary", timingH)]
 end Fabio.Driver.C19
